@@ -190,6 +190,22 @@ FOURTH WAVE.  <out>/ActionSrc.v: src/input_context/input_bind.rs struct InputBin
   reader.raw_value(i) = raw_value' reader i; `let x = actions.get_mut(&k).expect(..)` binds x to entry' (the stored
   ActionData) and x is returned updated; action.trigger_events(commands, entities) = commands := trigger_events'
   action commands entities.  trace! is skipped.
+
+FIFTH WAVE.  <out>/RegTbl.v (fixed text, trusted) and <out>/RegistrySrc.v: src/input_context.rs enum InstanceGroup, enum
+  ContextMode (declaration order), InstanceGroup::{priority, type_id, new}, ContextInstances::{index, add}.
+  NOT translated: ContextInstances::{remove, rebuild, get, update}.  Ties: coq/Proofs/SrcTie5P.v.
+  Additions to the subset: generic functions `fn f<C: Bound>`; the constants / functions of the type parameter become
+  parameters: TypeId::of::<C>() = type_id', C::PRIORITY = prio', C::MODE = shared' (ContextMode::Exclusive = false,
+  Shared = true), C::context_instance(world, e) = context_instance' e (`&World` arguments are dropped); they are
+  passed on in calls `self.f::<C>(..)` / `T::f::<C>(..)`; tuple struct with one field (newtype, `.0` = identity);
+  `..` in struct patterns; `match *self`; `vec![a, b]`; tuples of arbitrary supported types; `Reverse(x)` (only its
+  ordering matters: identity on isize); isize = Z, usize = nat;
+  `match &mut VEC[i] { Variant { f, .. } => { mutate f } .. }` (a lens): the element is rebuilt from the updated
+  fields and written back with Reg.set_at; OUT OF BOUNDS (a Rust panic) IS NOT MODELLED: the vector is unchanged.
+  Table (text of RegTbl.v): Iterator::position; Vec::insert(i, x) = insert_at; Vec::iter() = the list;
+  `v.binary_search_by_key(&Reverse(p), |g| Reverse(KEY g)).unwrap_or_else(|e| e)` = Reg.bsearch_rev_key KEY p v, a
+  transcription of core::slice::binary_search_by identical to the model's `bsearch` in Model/Registry.v except that
+  the key function is a parameter (the search itself is NOT translated from source).
 """
 import sys, os, argparse
 from fractions import Fraction
@@ -643,9 +659,12 @@ class Parser(object):
         if self.at('{'):
             self.next()
             fields = []
+            rest_ = False
             while not self.at('}'):
                 if self.at('..'):
-                    self.fail("`..` in pattern")
+                    self.next()
+                    rest_ = True
+                    break
                 fl = self.peek().line
                 fname = self.ident()
                 if self.eat(':'):
@@ -656,7 +675,7 @@ class Parser(object):
                 if not self.eat(','):
                     break
             self.expect('}')
-            return Node('PStruct', line, path=segs, fields=fields)
+            return Node('PStruct', line, path=segs, fields=fields, rest=rest_)
         if len(segs) == 1 and (segs[0][0].islower() or segs[0][0] == '_'):
             return Node('PBind', line, name=segs[0], mut=mut)
         if mut:
@@ -838,13 +857,34 @@ class Parser(object):
             self.fail("qualified path `<T as Trait>::...`")
         if t.kind == 'id':
             segs = [self.ident()]
+            ptargs = []
             while self.at('::'):
                 self.next()
                 if self.at('<'):
-                    self.fail("turbofish path")
+                    self.next()
+                    while not (self.at('>') or self.at('>>')):
+                        ptargs.append(self.type_())
+                        if not self.eat(','):
+                            break
+                    self.close_angle()
+                    break
                 segs.append(self.ident())
+            if ptargs:
+                return Node('Path', line, segs=segs, targs=ptargs)
             if self.at('!'):
                 # macro invocation
+                if segs == ['vec'] and self.at('[', 1):
+                    self.next()
+                    self.next()
+                    items = []
+                    while not self.at(']'):
+                        items.append(self.expr())
+                        if self.at(';'):
+                            self.fail("vec! repeat expression")
+                        if not self.eat(','):
+                            break
+                    self.expect(']')
+                    return Node('VecLit', line, items=items)
                 if self.peek(1).kind == 'p' and self.peek(1).text in OPEN:
                     self.next()
                     self.skip_balanced()
@@ -990,8 +1030,9 @@ class Parser(object):
         line = self.peek().line
         self.expect('fn')
         name = self.ident()
+        fgen = []
         if self.at('<'):
-            self.fail("generic function `%s`" % name)
+            fgen = self.generics()
         self.expect('(')
         self_kind = None
         params = []
@@ -1025,7 +1066,8 @@ class Parser(object):
             ret = self.type_()
         if self.at('where'):
             self.fail("`where` clause")
-        return Node('Fn', line, name=name, self_kind=self_kind, params=params, ret=ret, body=None, body_pos=None)
+        return Node('Fn', line, name=name, self_kind=self_kind, params=params, ret=ret, body=None, body_pos=None,
+                    fgenerics=fgen)
 
     def impl_body(self):
         """at `{` of an impl: returns list of Fn nodes (bodies NOT parsed: body_pos recorded)"""
@@ -1156,6 +1198,8 @@ def scan_items(toks, file):
                 items.append(Node('Item', line, kind='struct', name=name, attrs=attrs, pos=p.pos, generics=generics))
                 p.next()
                 continue
+            if p.at('('):
+                items.append(Node('Item', line, kind='tstruct', name=name, attrs=attrs, pos=p.pos, generics=generics))
             items.append(Node('Item', line, kind='other', name=name, attrs=attrs, pos=p.pos))
         elif t.text == 'impl':
             p.next()
@@ -1554,7 +1598,7 @@ ENUM_MAP['Ordering'] = {'Less': ('Lt', 'unit', []), 'Equal': ('Eq', 'unit', []),
 EXTERNAL_ENUMS['Ordering'] = ('<core::cmp>', [('Less', 'unit', []), ('Equal', 'unit', []), ('Greater', 'unit', [])], [])
 BEVY_METHODS[('ActionState', 'cmp')] = (['ActionState'], 'Ordering',          # derive(Ord): declaration order
                                         'Nat.compare (ActionState_index_src {r}) (ActionState_index_src {a0})')
-BEVY_MUT_METHODS[('Vec', 'push')] = ('elem', '{cur} ++ [{a0}]')
+BEVY_MUT_METHODS[('Vec', 'push')] = ('elem', '({cur} ++ [{a0}])%list')
 BEVY_MUT_METHODS[('Vec', 'clear')] = (None, '[]')
 # statement calls that stay OPAQUE: recv.m(.., &mut place) = let (recv, place) := <parameter> recv place
 OPAQUE_PAIR_STMTS = {('TriggerTracker', 'apply_modifiers'): ("apply_modifiers'", 2),
@@ -1582,6 +1626,66 @@ Variable raw_value' : InputReader_src -> input -> value.
 Variable entry' : data.
 (* action.trigger_events(commands, entities): the effect on the command queue *)
 Variable trigger_events' : data -> Cmds' -> list Z -> Cmds'.
+"""
+
+# --- fifth wave: ContextInstances (registry) ---
+COQ_TYPE.update({'usize': 'nat', 'isize': 'Z', 'Reverse<isize>': 'Z', 'ContextInstance': 'inst',
+                 'InstanceGroup': 'group', 'ContextMode': 'bool', '(Entity,ContextInstance)': '(Z * inst)%type',
+                 'Option<usize>': 'option nat'})
+ENUM_MAP['InstanceGroup'] = {
+    'Exclusive': ('GExcl', 'struct', [('type_id', 'TypeId'), ('priority', 'isize'),
+                                      ('instances', 'Vec<(Entity,ContextInstance)>')]),
+    'Shared': ('GShared', 'struct', [('type_id', 'TypeId'), ('priority', 'isize'), ('entities', 'Vec<Entity>'),
+                                     ('ctx', 'ContextInstance')])}
+ENUM_MAP['ContextMode'] = {'Exclusive': ('false', 'unit', []), 'Shared': ('true', 'unit', [])}
+BINOP[('==', 'TypeId', 'TypeId')] = ('Z.eqb {a} {b}', 'bool')
+BINOP[('==', 'Entity', 'Entity')] = ('Z.eqb {a} {b}', 'bool')
+# constants / functions of a type parameter C: InputContext -> parameters of the translated function
+OPAQUE_FNS.update({'tp1_type_id': ("type_id'", 'Z'), 'tp2_prio': ("prio'", 'Z'), 'tp3_mode': ("shared'", 'bool'),
+                   'tp4_ctx': ("context_instance'", 'Z -> inst')})
+TYPE_PARAM_CONSTS = {'PRIORITY': ('tp2_prio', 'isize'), 'MODE': ('tp3_mode', 'ContextMode')}
+BEVY_CLOSURE_METHODS[('Iter', 'position')] = ('bool', 'optusize', 'Reg.position {f} {r}')
+BEVY_MUT_METHODS[('Vec', 'insert')] = ('usize+elem', 'Reg.insert_at {a0} {a1} {cur}')
+REG_V = r"""(* GENERATED by bin/rs2v.py (fixed text): TRUSTED table of std meanings used by src/input_context.rs. *)
+From BEI Require Import Model.Num Model.Registry.
+Local Open Scope Z_scope.
+
+Module Reg.
+(* Iterator::position *)
+Fixpoint position {A : Type} (f : A -> bool) (l : list A) : option nat :=
+  match l with [] => None | x :: r => if f x then Some O else option_map S (position f r) end.
+(* Vec::insert(i, x) (i <= len) *)
+Fixpoint insert_at {A : Type} (n : nat) (x : A) (l : list A) : list A :=
+  match n, l with O, _ => x :: l | S n', y :: r => y :: insert_at n' x r | S _, [] => [x] end.
+(* v[i] = x through a `&mut v[i]` borrow (i < len; out of bounds would panic: not modelled, v unchanged) *)
+Fixpoint set_at {A : Type} (n : nat) (x : A) (l : list A) : list A :=
+  match n, l with O, _ :: r => x :: r | S n', y :: r => y :: set_at n' x r | _, [] => [] end.
+(* v.binary_search_by_key(&Reverse(p), |g| Reverse(key g)).unwrap_or_else(|e| e): the index found or the insertion
+   point, computed by core::slice::binary_search_by exactly as transcribed in Model/Registry.v (bsearch), with
+   the comparison  Reverse(key g).cmp(&Reverse(p)) = p.cmp(key g) *)
+Fixpoint bsearch_loop {A : Type} (key : A -> Z) (fuel : nat) (p : Z) (r : list A) (base size : nat) : nat :=
+  match fuel with
+  | O => base
+  | S fuel' =>
+      if Nat.leb size 1 then base
+      else let half := Nat.div2 size in
+           let mid := (base + half)%nat in
+           let base' := match nth_error r mid with
+                        | Some g => match Z.compare p (key g) with Gt => base | _ => mid end
+                        | None => base
+                        end in
+           bsearch_loop key fuel' p r base' (size - half)%nat
+  end.
+Definition bsearch_rev_key {A : Type} (key : A -> Z) (p : Z) (r : list A) : nat :=
+  match r with
+  | [] => O
+  | _ => let base := bsearch_loop key (length r) p r O (length r) in
+         match nth_error r base with
+         | Some g => match Z.compare p (key g) with Eq => base | Lt => S base | Gt => base end
+         | None => base
+         end
+  end.
+End Reg.
 """
 
 # =====================================================================================
@@ -1761,6 +1865,8 @@ class World(object):
     def coq_type_of(self, ty):
         if ty in COQ_TYPE:
             return COQ_TYPE[ty]
+        if ty in getattr(self, 'newtypes', {}):
+            return self.coq_type_of(self.newtypes[ty])
         if ty in self.smeta:
             return self.smeta[ty]['coq']
         for (pre, fmt) in (('HashSet<', 'list %s'), ('Option<', 'option %s'), ('Iter<', 'list %s'), ('Vec<', 'list %s')):
@@ -2047,7 +2153,7 @@ def always_returns_stmt(s):
 def assign_root(lhs):
     """root variable of an assignment target:  x | *x | x.f | (*x).f"""
     e = lhs
-    while e.k == 'Field':
+    while e.k in ('Field', 'TupleIndex', 'Index'):
         e = e.recv
     while e.k == 'Paren':
         e = e.expr
@@ -2062,6 +2168,8 @@ def assigned_vars(n, acc):
     if isinstance(n, Node):
         if n.k == 'Assign':
             acc.append((assign_root(n.lhs), n.line))
+        if n.k == 'Match' and n.scrut.k == 'Ref' and n.scrut.mut:
+            acc.append((assign_root(n.scrut.expr), n.line))
         if n.k == 'Expr' and n.expr.k == 'Method':         # statement `place.method(..);` may mutate place
             if n.expr.name in [k_[1] for k_ in EFFECT_STMTS] and n.expr.args:
                 acc.append((assign_root(n.expr.args[0]), n.line))
@@ -2084,6 +2192,9 @@ class FnTranslator(object):
         self.w, self.sf, self.out, self.self_type, self.fn = world, sf, out, self_type, fn
         self.key = (self_type, fn.name)
         self.recursive = False
+        self.generics = []
+        self.opq_used = []
+        self.time_used = []
         self.ret = None
         self.opaque = None          # for loop-step functions: method -> (param coq name, type, args text)
 
@@ -2140,7 +2251,7 @@ class FnTranslator(object):
         self.step_name = coq_name[:-4] + '_step_src'
         self.opq_used = []
         self.lookup_used = False
-        self.generics = list(getattr(f, 'generics', []))
+        self.generics = list(getattr(f, 'generics', [])) + list(getattr(f, 'fgenerics', []))
         if f.self_kind is not None:
             env['self'] = Var(self.self_type, "self'", 'refmut' if f.self_kind == 'refmut' else 'val')
             binders.append("(self' : %s)" % self.coq_type(self.self_type, f.line))
@@ -2156,6 +2267,9 @@ class FnTranslator(object):
             if ty == TIME_TYPE and rk == 'ref':
                 env[pat.name] = Var(ty, None, 'time')
                 binders.append(('time',))
+                continue
+            if ty == 'World':
+                env[pat.name] = Var(ty, None, 'world')
                 continue
             if ty == ACTIONS_TYPE and rk in ('ref', 'refmut'):
                 env[pat.name] = Var(ty, None, 'actions')
@@ -2412,6 +2526,10 @@ class FnTranslator(object):
             if ty1 != ty2:
                 self.fail(e.line, "branches of types `%s` and `%s`" % (ty1, ty2))
             return (fmt(t1, t2), ty1)
+        if (s.k == 'Expr' and s.expr.k == 'Match' and s.expr.scrut.k == 'Ref' and s.expr.scrut.mut
+                and s.expr.scrut.expr.k == 'Index'):
+            name, newval = self.lens_match(s.expr, env)
+            return prefix("let %s :=\n  %s in\n" % (env[name].coq, ind(newval)), go_rest())
         if s.k == 'Expr' and s.expr.k == 'Method':
             res = self.method_stmt(s.expr, env)
             if len(res) == 3:
@@ -2460,6 +2578,11 @@ class FnTranslator(object):
            where rebuild(text of new value) = text of the new value of the root variable"""
         while e.k == 'Paren':
             e = e.expr
+        if e.k == 'TupleIndex' and e.index == '0':
+            root, cur, ty, rb = self.place(e.recv, env, line)[:4]
+            if ty not in getattr(self.w, 'newtypes', {}):
+                self.fail(line, "tuple field of `%s`" % ty)
+            return root, cur, self.w.newtypes[ty], rb
         if e.k == 'Field':
             root, cur, ty, rb = self.place(e.recv, env, line)[:4]
             if (ty, e.name) in GLAM_SETTERS:
@@ -2509,6 +2632,60 @@ class FnTranslator(object):
                 self.fail(s.line, "operator `%s` on `%s` and `%s`" % (s.op, cty, rty))
             new = BINOP[key][0].format(a=par(cur), b=par(rhs))
         return root, rb(new)
+
+    def lens_match(self, e, env):
+        """match &mut VEC[i] { Variant { f, g, .. } => { ..mutate f, g.. } .. }: the element is rebuilt from the
+           (possibly updated) fields and written back at index i"""
+        ix = e.scrut.expr
+        root, cur, vty, rb = self.place(ix.recv, env, e.line)[:4]
+        if not vty.startswith('Vec<') or vty[4:-1] not in ENUM_MAP:
+            self.fail(e.line, "`match &mut` on an element of `%s`" % vty)
+        ety = vty[4:-1]
+        it, ity = self.expr(ix.index, env, 'usize')
+        if ity != 'usize':
+            self.fail(e.line, "index of type `%s`" % ity)
+        if env[root].kind not in ('mut', 'refmut'):
+            self.fail(e.line, "`&mut` of immutable `%s`" % root)
+        decl = dict((v, (kd, pl)) for (v, kd, pl) in self.enum_of(ety, e.line))
+        out = ["match nth_error %s %s with" % (par(cur), par(it))]
+        for a in e.arms:
+            p = a.pat
+            if p.k != 'PStruct' or self.resolve_type(p.path[-2], p.line) != ety or p.path[-1] not in decl:
+                self.fail(a.line, "arm of a `match &mut`: expected a struct-variant pattern of `%s`" % ety)
+            kd, payload = decl[p.path[-1]]
+            given = dict(p.fields)
+            if kd != 'struct' or any(f not in dict(payload) for f in given) or any(fp.k != 'PBind' for fp in given.values()):
+                self.fail(a.line, "unsupported pattern in `match &mut`")
+            env2 = dict(env)
+            names, fields = [], []
+            for (f, fty) in payload:
+                if fty in FLAT:
+                    self.fail(a.line, "vector payload in `match &mut`")
+                if f in given:
+                    v = given[f].name
+                    env2[v] = Var(fty, v + "'", 'mut')
+                    names.append(v)
+                    fields.append(v + "'")
+                else:
+                    fields.append("%s0'" % f)
+            if a.body.k != 'Block':
+                self.fail(a.line, "arm of a `match &mut` must be a block")
+            for (nm, ln) in assigned_vars(a.body, []):
+                if nm not in names and nm in env:
+                    self.fail(ln, "arm of a `match &mut` assigns the outer variable `%s`" % nm)
+            if contains_return(a.body) or contains_continue(a.body):
+                self.fail(a.line, "`return` / `continue` in an arm of a `match &mut`")
+            body = self.seq(a.body.stmts, a.body.tail, env2, ('vars', names)) if names else None
+            cname = ENUM_MAP[ety][p.path[-1]][0]
+            ctor = ' '.join([cname] + fields)
+            if names:
+                pat = env2[names[0]].coq if len(names) == 1 else "'(" + ', '.join(env2[n].coq for n in names) + ')'
+                new = "let %s :=\n  %s in\n%s" % (pat, ind(body), ctor)
+            else:
+                new = ctor
+            out.append("| Some (%s) =>\n    Reg.set_at %s\n      (%s)\n      %s" % (ctor, par(it), ind(new, 7), par(cur)))
+        out.append("| None =>\n    %s\nend" % cur)
+        return root, rb('\n'.join(out))
 
     def getmut_idiom(self, e, env):
         return (e.k == 'Method' and e.name == 'expect' and e.recv.k == 'Method' and e.recv.name == 'get_mut'
@@ -2610,6 +2787,14 @@ class FnTranslator(object):
             if aty is None:
                 if e.args:
                     self.fail(e.line, "wrong number of arguments for `%s`" % e.name)
+            elif aty == 'usize+elem':
+                if len(e.args) != 2:
+                    self.fail(e.line, "wrong number of arguments for `%s`" % e.name)
+                t0, ty0 = self.expr(e.args[0], env, 'usize')
+                t1, ty1 = self.expr(e.args[1], env, ty[len(ctor) + 1:-1])
+                if ty0 != 'usize' or ty1 != ty[len(ctor) + 1:-1]:
+                    self.fail(e.line, "arguments of types `%s`, `%s`" % (ty0, ty1))
+                args = {'a0': par(t0), 'a1': par(t1)}
             else:
                 aty = ty[len(ctor) + 1:-1] if aty == 'elem' else aty
                 if len(e.args) != 1:
@@ -2711,9 +2896,11 @@ class FnTranslator(object):
                     self.fail(p.line, "wrong number of sub-patterns")
             else:
                 given = dict(p.fields)
-                if sorted(given) != sorted(f for f, _ in payload) or len(p.fields) != len(payload):
-                    self.fail(p.line, "struct pattern must list every field exactly once")
-                subs = [(given[f], fty) for (f, fty) in payload]
+                names_ = [f for f, _ in payload]
+                if len(given) != len(p.fields) or any(f not in names_ for f in given) or (
+                        not getattr(p, 'rest', False) and sorted(given) != sorted(names_)):
+                    self.fail(p.line, "struct pattern must list every field exactly once (or end with `..`)")
+                subs = [(given.get(f, Node('PWild', p.line)), fty) for (f, fty) in payload]
             texts, lets = [], []
             for (sp, sty) in subs:
                 if sty in FLAT:
@@ -2852,6 +3039,9 @@ class FnTranslator(object):
                     self.fail(e.line, "use of `%s` other than a method call" % nm)
                 return env[nm].coq, env[nm].ty
             tname, name = self.resolve_type(e.segs[-2], e.line), e.segs[-1]
+            if tname in self.generics and name in TYPE_PARAM_CONSTS:
+                on, ty_ = TYPE_PARAM_CONSTS[name]
+                return self.opq(on), ty_
             if (tname, name) in GLAM_CONSTS:
                 return GLAM_CONSTS[(tname, name)]
             if tname in ENUM_MAP:
@@ -2864,10 +3054,35 @@ class FnTranslator(object):
                     self.fail(e.line, "unknown flag `%s::%s`" % (tname, name))
                 return "%s_%s_src" % (tname, name), tname
             self.fail(e.line, "unknown path `%s`" % '::'.join(e.segs))
+        if k == 'Call' and e.fn.k == 'Path' and e.fn.segs == ['Reverse'] and len(e.args) == 1:
+            t_, ty_ = self.expr(e.args[0], env, 'isize')          # cmp::Reverse: only its ordering matters (table)
+            if ty_ != 'isize':
+                self.fail(e.line, "Reverse of `%s`" % ty_)
+            return t_, 'Reverse<isize>'
+        if k == 'VecLit':
+            parts = [self.expr(x, env, None) for x in e.items]
+            if not parts or any(p[1] != parts[0][1] for p in parts):
+                self.fail(e.line, "vec! literal")
+            return '[' + '; '.join(p[0] for p in parts) + ']', 'Vec<%s>' % parts[0][1]
+        if k == 'TupleIndex' and e.index == '0':
+            rt, rty = self.expr(e.recv, env, None)
+            if rty in getattr(self.w, 'newtypes', {}):
+                return rt, self.w.newtypes[rty]
+            self.fail(e.line, "tuple field of `%s`" % rty)
         if k == 'Call':
             if e.fn.k != 'Path' or len(e.fn.segs) < 2:
                 self.fail(e.line, "call of a non-path expression")
             tname, name = self.resolve_type(e.fn.segs[-2], e.line), e.fn.segs[-1]
+            ftargs = getattr(e.fn, 'targs', [])
+            if (tname, name) == ('TypeId', 'of') and len(ftargs) == 1 and ftargs[0] in self.generics and not e.args:
+                return self.opq('tp1_type_id'), 'TypeId'
+            if tname in self.generics and name == 'context_instance' and len(e.args) == 2:
+                t_, ty_ = self.expr(e.args[1], env, 'Entity')
+                if ty_ != 'Entity':
+                    self.fail(e.line, "argument of type `%s`, expected Entity" % ty_)
+                return "%s %s" % (self.opq('tp4_ctx'), par(t_)), 'ContextInstance'
+            if (tname, name) == ('Reverse', 'Reverse') or (len(e.fn.segs) == 1):
+                pass
             if tname in ENUM_MAP and name in dict((v, 1) for (v, _, _) in self.enum_of(tname, e.line)):
                 decl = dict((v, (kd, pl)) for (v, kd, pl) in self.enum_of(tname, e.line))
                 kd, payload = decl[name]
@@ -2885,6 +3100,9 @@ class FnTranslator(object):
             if (tname, name) in self.w.fns:
                 return self.user_call((tname, name), None, e.args, env, e.line)
             self.fail(e.line, "call of `%s`" % '::'.join(e.fn.segs))
+        if (k == 'Method' and e.name == 'unwrap_or_else' and len(e.args) == 1 and e.recv.k == 'Method'
+                and e.recv.name == 'binary_search_by_key'):
+            return self.bsearch_idiom(e, env)
         if k == 'Method':
             r = e.recv
             if r.k == 'Path' and len(r.segs) == 1 and r.segs[0] in env and env[r.segs[0]].kind == 'opaque':
@@ -2898,9 +3116,10 @@ class FnTranslator(object):
                     self.fail(e.line, "use of `&ActionsData` other than `.action::<A>()` with A a type parameter")
                 self.lookup_used = True
                 return "lookup'", LOOKUP_RESULT
-            if e.targs:
-                self.fail(e.line, "turbofish method call")
             rt, rty = self.expr(r, env, None)
+            pass
+            if e.targs and not ((rty, e.name) in self.w.fns and all(t in self.generics for t in e.targs)):
+                self.fail(e.line, "turbofish method call")
             if (rty, e.name) in OPAQUE_VALUE_METHODS:
                 fn, ptys, res = OPAQUE_VALUE_METHODS[(rty, e.name)]
                 if len(ptys) != len(e.args):
@@ -2964,8 +3183,8 @@ class FnTranslator(object):
                 x = e.expr
                 if x.k == 'Path' and len(x.segs) == 1 and x.segs[0] in env and env[x.segs[0]].kind == 'refmut':
                     return env[x.segs[0]].coq, env[x.segs[0]].ty
-                if x.k == 'Field':
-                    return self.expr(x, env, exp)      # `*self.field`: copy out of a wrapper / reference
+                if x.k == 'Field' or (x.k == 'Path' and x.segs == ['self']):
+                    return self.expr(x, env, exp)      # `*self.field`, `*self`: copy out of a wrapper / reference
                 self.fail(e.line, "dereference")
             t, ty = self.expr(e.expr, env, exp)
             if e.op == '!' and ty == 'bool':
@@ -3074,13 +3293,14 @@ class FnTranslator(object):
                 self.fail(e.line, "`return` here")
             return self.expr(e.expr, env, self.ret)
         if k == 'Tuple' and len(e.items) in (2, 3):
-            parts = []
+            parts, tys = [], []
             for x in e.items:
-                t, ty = self.expr(x, env, 'f32')
-                if ty != 'f32':
-                    self.fail(x.line, "tuple component of type `%s` (only tuples of f32 are supported)" % ty)
+                t, ty = self.expr(x, env, 'f32' if x.k == 'Float' else None)
                 parts.append(t)
-            return '(' + ', '.join(parts) + ')', '(' + ','.join(['f32'] * len(parts)) + ')'
+                tys.append(ty)
+            tt = '(' + ','.join(tys) + ')'
+            self.coq_type(tt, e.line)
+            return '(' + ', '.join(parts) + ')', tt
         names = {'Cast': "`as` cast", 'Ref': "borrow expression", 'Closure': "closure (outside the table methods)", 'Macro': "macro invocation",
                  'Tuple': "tuple expression", 'Array': "array literal", 'Index': "indexing",
                  'TupleIndex': "tuple field", 'Str': "string / char literal"}
@@ -3107,6 +3327,22 @@ class FnTranslator(object):
         t, ty = self.expr(c.body, env2, exp)
         return "(fun %s => %s)" % (x, ind(t, 5)), ty
 
+    def bsearch_idiom(self, e, env):
+        """VEC.binary_search_by_key(&K, |g| Reverse(KEY)).unwrap_or_else(|x| x)"""
+        b = e.recv
+        c = e.args[0]
+        if not (c.k == 'Closure' and len(c.params) == 1 and c.params[0].k == 'PBind' and c.body.k == 'Path'
+                and c.body.segs == [c.params[0].name]):
+            self.fail(e.line, "`unwrap_or_else` with a closure other than the identity")
+        vt, vty = self.expr(b.recv, env, None)
+        if not vty.startswith('Vec<') or len(b.args) != 2:
+            self.fail(e.line, "`binary_search_by_key` on `%s`" % vty)
+        kt, kty = self.expr(self.strip_ref(b.args[0]), env, None)
+        f, fty = self.closure(b.args[1], env, vty[4:-1], None)
+        if kty != 'Reverse<isize>' or fty != 'Reverse<isize>':
+            self.fail(e.line, "`binary_search_by_key` with keys of type `%s` / `%s` (only Reverse<isize>)" % (kty, fty))
+        return "Reg.bsearch_rev_key %s %s %s" % (f, par(kt), par(vt)), 'usize'
+
     def bevy_method(self, e, rt, rty, env, exp):
         if (rty, e.name) in BEVY_METHODS:
             ptys, res, tmpl = BEVY_METHODS[(rty, e.name)]
@@ -3123,6 +3359,8 @@ class FnTranslator(object):
         inner = rty[len(ctor) + 1:-1] if rty.endswith('>') else None
         if (ctor, e.name) in BEVY_IDENTITY_METHODS and not e.args:
             return rt, rty
+        if ctor == 'Vec' and e.name == 'iter' and not e.args:
+            return rt, 'Iter<%s>' % inner
         if ctor == 'HashSet' and e.name == 'contains' and len(e.args) == 1:
             t, ty = self.expr(self.strip_ref(e.args[0]), env, inner)
             if ty != inner:
@@ -3136,7 +3374,7 @@ class FnTranslator(object):
                 self.fail(e.line, "closure of type `%s`, expected bool" % fty)
             if want == 'option' and not fty.startswith('Option<'):
                 self.fail(e.line, "closure of type `%s`, expected an Option" % fty)
-            res = {'bool': 'bool', 'same': rty, 'closure': fty}[resk]
+            res = {'bool': 'bool', 'same': rty, 'closure': fty, 'optusize': 'Option<usize>'}[resk]
             return tmpl.format(r=par(rt), f=f), res
         return None
 
@@ -3168,6 +3406,8 @@ class FnTranslator(object):
                 if not (a.k == 'Path' and len(a.segs) == 1 and a.segs[0] in env and env[a.segs[0]].kind == 'time'):
                     self.fail(a.line, "argument for a `&Time<Virtual>` parameter must be such a parameter")
                 texts += [self.time_param(m, a.line) for m in f.time_methods]
+                continue
+            if pty == 'World':
                 continue
             if pty == ACTIONS_TYPE:
                 if f.uses_lookup:
@@ -3329,6 +3569,8 @@ VALUE_FNS = ['zero', 'dim', 'convert', 'is_actuated', 'as_bool', 'as_axis1d', 'a
 EVENTS_FNS = ['new']
 TRACKER_FNS = ['new', 'state', 'value', 'events_blocked', 'overwrite', 'combine']
 DATA_FNS = ['update', 'state']
+REGISTRY_FNS = [('InstanceGroup', 'priority'), ('InstanceGroup', 'type_id'), ('InstanceGroup', 'new'),
+                ('ContextInstances', 'index'), ('ContextInstances', 'add')]
 READER_FNS = [('ConsumedInput', 'reset'), ('InputReader', 'mod_keys_pressed'), ('InputReader', 'value'),
               ('InputReader', 'consume')]
 MODIF_FILES = [('scale.rs', 'Scale', 'struct', [], ['apply']),
@@ -3467,6 +3709,35 @@ def run(repo, outdir):
         raise Unsupported(ci.rel, 0, "function `ActionBind::update` not found")
     w.require_fn(('ActionBind', 'update'), o_act, ci, 0)
     files['ActionSrc.v'] = o_act
+    # ---- fifth wave: ContextInstances
+    rg = SrcFile(repo, 'src/input_context.rs')
+    o_reg = OutFile('Generated.RegistrySrc', rg.rel,
+                    ['Model.Num', 'Model.Value', 'Model.State', 'Model.Tracker', 'Model.Cond', 'Model.Modif',
+                     'Model.Reader', 'Model.Action', 'Model.Registry', 'Generated.BevyTbl', 'Generated.RegTbl'])
+    w.newtypes = {}
+    for it in rg.items:
+        if it.kind == 'tstruct' and it.name == 'ContextInstances':
+            p = rg.parser(it.pos)
+            p.expect('(')
+            p.attrs()
+            p.visibility()
+            w.newtypes[it.name] = p.type_()
+            if not p.at(')'):
+                raise Unsupported(rg.rel, it.line, "tuple struct with more than one field")
+    if 'ContextInstances' not in w.newtypes:
+        raise Unsupported(rg.rel, 0, "tuple struct `ContextInstances` not found")
+    w.load_enum(rg, 'ContextMode')
+    w.load_enum(rg, 'InstanceGroup')
+    emit_enum_helpers(w, o_reg, 'ContextMode', rg)
+    emit_enum_helpers(w, o_reg, 'InstanceGroup', rg)
+    w.load_impls(rg, o_reg, 'InstanceGroup')
+    w.load_impls(rg, o_reg, 'ContextInstances')
+    for key in REGISTRY_FNS:
+        if key not in w.fns:
+            raise Unsupported(rg.rel, 0, "function `%s::%s` not found" % key)
+        w.require_fn(key, o_reg, rg, 0)
+    files['RegTbl.v'] = REG_V
+    files['RegistrySrc.v'] = o_reg
     # all translated: write
     if not os.path.isdir(outdir):
         os.makedirs(outdir)
